@@ -483,7 +483,51 @@ def f_section_glued(rng):
     return rng.choice([f"{w}{s}{w}", f"{s}{w}", f"42 U.S.C.{s}1983", f"42 U.S.C. {s} 1983", f"{w}{s}"])
 
 
+PLAIN_WORDS = ["notwithstanding", "the", "panel", "below", "had", "reasoned", "otherwise", "in", "earlier", "appeal", "and", "as", "explained",
+               "thereafter", "when", "parties", "returned", "to", "district", "judge", "for", "further", "proceedings", "on", "remand", "xx", "a", "counsel"]
+
+
+def f_long_backward(rng):
+    """a citation preceded by a run of ordinary words that reaches the 300-character scan limit (MAX_MATCH_CHARS) at
+    every alignment, ending in antecedent- / name-like text: the backward window must stay adjacent to the citation"""
+    target = rng.choice([250, 280, 290, 295, 299, 300, 301, 305, 310, 320, 340, 400])
+    words = []
+    n = 0
+    while n < target:
+        w = rng.choice(PLAIN_WORDS)
+        words.append(w)
+        n += len(w) + 1
+    run = " ".join(words)
+    nm = party(rng)
+    tail = rng.choice(
+        [
+            f" {P(nm)}, decided {core(rng)}{year_paren(rng)}.",
+            f" {P(nm)}, long ago, {num(rng)} {rng.choice(COMMON_REPORTERS)}, at {num(rng)}.",
+            f" {P(nm)}, noted above, supra, at {num(rng)}.",
+            f" {P(nm)}, {num(rng)} {rng.choice(COMMON_REPORTERS)}, at {num(rng)}.",
+            f" {P(nm)}, supra, at {num(rng)}.",
+            f" {P(nm)} v. {P(party(rng))}, {core(rng)}{year_paren(rng)}.",
+        ]
+    )
+    return run[0].upper() + run[1:] + tail
+
+
+def f_reference_before(rng):
+    """a party name mentioned (italicised in markup mode) BEFORE the full citation as well as after it: only the later
+    mention may become a reference citation"""
+    p, d = party(rng), party(rng)
+    nm = rng.choice([p, d])
+    k = rng.choice([0, 3, 8, 15])
+    pad = " ".join(rng.choice(PLAIN_WORDS) for _ in range(k))
+    before = rng.choice([f"The {P(nm)} court was more pragmatic. {pad}", f"{P(nm)} is instructive here. {pad}", f"As in {P(nm)}, {pad} we agree."])
+    first = f"See {P(p)} v. {P(d)}, {core(rng)}{rng.choice(PINS)}{year_paren(rng)}."
+    after = rng.choice([f" In {P(nm)}, the court rejected the argument.", "", f" {P(nm)} at {num(rng)}."])
+    return f"{before} {first}{after}"
+
+
 FAMILIES = {
+    "long_backward": f_long_backward,
+    "reference_before": f_reference_before,
     "full": f_full,
     "bare": f_bare,
     "parallel": f_parallel,
@@ -513,17 +557,18 @@ DEFAULT_MIX = [
     ("supra", 5), ("id", 6), ("law", 5), ("journal", 4), ("placeholder", 3), ("cal_year", 5),
     ("string_cite", 4), ("nested_paren", 4), ("nominative_overlap", 5), ("odd_v", 5), ("reference", 5),
     ("id_after_odd_page", 3), ("long_digits", 0.4), ("filler", 6), ("hostile", 2), ("section_glued", 2),
+    ("long_backward", 5), ("reference_before", 2),
 ]
 
 # focus (qualified function name, without the leading "eyecite.") -> template families
 FOCUS = {
     "helpers.add_defendant": [("odd_v", 10), ("cal_year", 5), ("full", 3), ("nominative_overlap", 3), ("string_cite", 2), ("parallel", 2)],
-    "helpers.add_pre_citation": [("reference", 6), ("short_parallel", 4), ("nameless_run", 4), ("bare", 3), ("filler", 2)],
+    "helpers.add_pre_citation": [("long_backward", 8), ("reference", 6), ("short_parallel", 4), ("nameless_run", 4), ("bare", 3), ("filler", 2)],
     "helpers.add_post_citation": [("full", 6), ("nested_paren", 6), ("parallel", 5), ("bare", 4), ("placeholder", 2), ("nameless_run", 3)],
     "helpers.process_parenthetical": [("nested_paren", 10), ("full", 4), ("law", 2), ("journal", 2)],
     "helpers.extract_pin_cite": [("short", 10), ("id", 6), ("supra", 6), ("short_parallel", 4), ("filler", 2)],
     "helpers.clean_pin_cite": [("short", 6), ("full", 6), ("id", 4), ("journal", 3)],
-    "helpers.match_on_tokens": [("nested_paren", 4), ("short", 4), ("full", 4), ("supra", 3), ("law", 3), ("long_digits", 1), ("hostile", 3)],
+    "helpers.match_on_tokens": [("long_backward", 10), ("nested_paren", 4), ("short", 4), ("full", 4), ("supra", 3), ("law", 3), ("long_digits", 1), ("hostile", 3)],
     "helpers.add_law_metadata": [("law", 10), ("section_glued", 4), ("string_cite", 2)],
     "helpers.add_journal_metadata": [("journal", 10), ("placeholder", 4), ("id_after_odd_page", 2)],
     "helpers.get_year": [("full", 6), ("cal_year", 6), ("bare", 4), ("law", 3), ("journal", 3), ("nameless_run", 3)],
@@ -550,13 +595,13 @@ FOCUS = {
     "models.Edition.includes_year": [("bare", 8), ("cal_year", 5), ("full", 5)],
     "find.get_citations": None,  # default mix
     "find._extract_full_citation": [("full", 6), ("bare", 4), ("law", 4), ("journal", 4), ("placeholder", 2)],
-    "find._extract_shortform_citation": [("short", 10), ("short_parallel", 5), ("nominative_overlap", 2)],
-    "find._extract_supra_citation": [("supra", 10), ("reference", 2), ("hostile", 2)],
+    "find._extract_shortform_citation": [("long_backward", 5), ("short", 10), ("short_parallel", 5), ("nominative_overlap", 2)],
+    "find._extract_supra_citation": [("long_backward", 5), ("supra", 10), ("reference", 2), ("hostile", 2)],
     "find._extract_id_citation": [("id", 10), ("id_after_odd_page", 3), ("string_cite", 2)],
     "find.extract_reference_citations": [("reference", 12), ("full", 3), ("parallel", 2)],
     "find.extract_pincited_reference_citations": [("reference", 12), ("full", 3), ("parallel", 2)],
-    "find.find_reference_citations_from_markup": [("reference", 12), ("full", 3), ("parallel", 2)],
-    "models.Document.__post_init__": [("reference", 6), ("full", 4), ("hostile", 3), ("filler", 3)],
+    "find.find_reference_citations_from_markup": [("reference_before", 12), ("reference", 12), ("full", 3), ("parallel", 2)],
+    "models.Document.__post_init__": [("reference_before", 6), ("reference", 6), ("full", 4), ("hostile", 3), ("filler", 3)],
     "utils.is_valid_name": [("reference", 10), ("full", 3)],
     "annotate.annotate_citations": [("string_cite", 4), ("full", 4), ("id", 4), ("short", 4), ("hostile", 3)],
 }
@@ -716,8 +761,13 @@ def to_markup(rng, marked):
         body = body.replace(" v. ", rng.choice(["\n v. ", " <i>v.</i> ", "  v.  ", " v.\n"]), 1)
     if rng.random() < 0.2:
         body = body.replace(". ", rng.choice([".</p>\n<p>", ". <br/>", ".\n\n", ".</p><p>"]), 1)
+    attr = rng.choice(["", "", ' id="b101-4"', ' class="opinion" data-page="101" id="b101-5"', ' style="text-indent: 2em; margin-left: 4em" class="indent"'])
+    if attr:
+        body = body.replace(". ", f".</p>\n<p{attr}>", 2)
     shape = rng.random()
-    if shape < 0.5:
+    if attr:
+        doc = f"<div{attr}><p{attr}>{body}</p></div>"
+    elif shape < 0.5:
         doc = f"<p>{body}</p>"
     elif shape < 0.7:
         doc = f"<div>\n  <p>{body}</p>\n</div>"
@@ -731,7 +781,7 @@ def to_markup(rng, marked):
 
 
 MARKUP_MIX = [
-    ("reference", 14), ("full", 8), ("parallel", 4), ("short", 3), ("supra", 3), ("id", 3), ("string_cite", 3),
+    ("reference_before", 10), ("reference", 14), ("full", 8), ("parallel", 4), ("short", 3), ("supra", 3), ("id", 3), ("string_cite", 3),
     ("cal_year", 2), ("nominative_overlap", 3), ("law", 2), ("journal", 1), ("nested_paren", 2), ("filler", 2),
     ("short_parallel", 2), ("nameless_run", 1), ("odd_v", 1),
 ]
